@@ -109,6 +109,22 @@ fn osa(a: &str, b: &str) -> usize {
   d[n][m]
 }
 
+/// Plain Levenshtein distance over chars (used only to CLASSIFY failures the way the engine counts).
+fn lev(a: &str, b: &str) -> usize {
+  let a: Vec<char> = a.chars().collect();
+  let b: Vec<char> = b.chars().collect();
+  let mut prev: Vec<usize> = (0..=b.len()).collect();
+  for i in 1..=a.len() {
+    let mut cur = vec![i; b.len() + 1];
+    for j in 1..=b.len() {
+      let cost = if a[i - 1] == b[j - 1] { 0 } else { 1 };
+      cur[j] = (prev[j] + 1).min(cur[j - 1] + 1).min(prev[j - 1] + cost);
+    }
+    prev = cur;
+  }
+  prev[b.len()]
+}
+
 fn char_prefix(s: &str, n: usize) -> String {
   s.chars().take(n).collect()
 }
@@ -255,6 +271,16 @@ fn run_corpus(
         }
       }
     };
+    // the narrower set the engine itself would accept (classification of failures only)
+    let engine_accepts = |term: &str| -> bool {
+      match fz.as_ref() {
+        None => term.starts_with(analysed.as_str()),
+        Some(f) => {
+          let pl = f.prefix_length.min(alen);
+          lev(&analysed, term) <= (f.max_edits as usize).min(2) && char_prefix(term, pl) == char_prefix(&analysed, pl)
+        }
+      }
+    };
     let matching: Vec<(&String, u64)> = d.iter().filter(|(t, _)| qualifies(t)).map(|(t, c)| (t, *c)).collect();
     let m = matching.len();
     let cap = match fz.as_ref() {
@@ -319,7 +345,7 @@ fn run_corpus(
             }
           }
           at += *nseg;
-          pairs += segset.iter().filter(|t| qualifies(t)).count();
+          pairs += segset.iter().filter(|t| engine_accepts(t)).count();
         }
       }
       // the engine's own cap (for classification only)
@@ -462,7 +488,7 @@ fn run_corpus(
               }
             }
             at += *nseg;
-            pairs += segset.iter().filter(|t| qualifies(t)).count();
+            pairs += segset.iter().filter(|t| engine_accepts(t)).count();
           }
           let engine_cap = match fz.as_ref() {
             None => size.saturating_mul(5).clamp(SCAN_CAP_FLOOR, MAX_SUGGEST_CANDIDATES),
